@@ -4,7 +4,7 @@ CONSTANTS Names = {1}
           Split = 1
           Legacy = FALSE
           Inits = {1}
-          MaxObj = 2
+          MaxObj = 3
           MaxVal = 1
 CONSTRAINT Bound
 INVARIANT CreateNeverFails
